@@ -80,6 +80,13 @@ def trace_to_case(r):
                 holders = [p for p in snap["demes"] if d["id"] in p["children"]]
                 par = idx[holders[0]["id"]] + 1 if holders else -99
             out += [d["lvl"], par, d["started"], int(d["active"]), int(d["hib"]), len(d["gens"]) - 1, d["nev"]]
+        # the id strings: last component ("root" -> 0, "3" -> 3, "3/7" -> 7); the parent part is the parent's id (compared through `par`)
+        out.append(-4)
+        for d in ds:
+            try:
+                out.append(0 if d["id"] == "root" else int(d["id"].rsplit("/", 1)[-1]))
+            except ValueError:
+                out.append(-98)
         return out
 
     def quick(snap):
